@@ -146,10 +146,12 @@ class BusDriver:
         le = (self.serial % 2 == 0)
         if kind == 'call':
             f = [('path', '/p/q'), ('interface', 'org.ex.I1'), ('member', 'Do'), ('destination', d)] + extra
-            s, raw = self._raw(c, 1, f, 'si', ['arg', self.serial], flags=self.serial % 4, le=le, descr=('fwd', kind, dest))
+            s, raw = self._raw(c, 1, f, 'siv', ['arg', self.serial, refwire.Variant('u', 4000000000)], flags=self.serial % 4, le=le,
+                               descr=('fwd', kind, dest))
         elif kind == 'return':
             f = [('reply_serial', 4242), ('destination', d)] + extra
-            s, raw = self._raw(c, 2, f, 'as', [['r', 'é']], le=le, descr=('fwd', kind, dest))
+            s, raw = self._raw(c, 2, f, 'asa{sv}', [['r', 'é'], [('k', refwire.Variant('y', 7)), ('p', refwire.Variant('o', '/q'))]], le=le,
+                               descr=('fwd', kind, dest))
         elif kind == 'error':
             f = [('error_name', 'org.ex.Err'), ('reply_serial', 4243), ('destination', d)] + extra
             s, raw = self._raw(c, 3, f, 's', ['why'], le=le, descr=('fwd', kind, dest))
